@@ -1080,6 +1080,11 @@ def resolve_mcs(ctx):
                 Obj("dep_q_value", inst=None, cls=the_cls, name="q", pobj=Obj("class_Parameter_q"), what="value"),
                 Obj("dep_p_%s" % order[1], inst=None, cls=the_cls, name="p", pobj=Obj("class_Parameter_p"), what=order[1]),
                 Obj("dep_foreign", inst=None, cls=foreign, name="z", pobj=Obj("foreign_Parameter"), what="value")]
+        # two links of a path through two instances of one class whose parameter is declared per_instance=False: both
+        # entries carry the SAME (class-level) Parameter object and differ in the instance only -- they are two watch points
+        shared = Obj("shared_class_level_Parameter_child")
+        deps += [Obj("dep_link_on_root", inst=Obj("root_node"), cls=foreign, name="child", pobj=shared, what="value"),
+                 Obj("dep_link_on_mid", inst=Obj("mid_node"), cls=foreign, name="child", pobj=shared, what="value")]
 
         def hook(fn, args, kwargs):
             if fn == "type" and args and args[0] is obj:
@@ -1099,7 +1104,7 @@ def resolve_mcs(ctx):
         n += 1
         got = outs[0].value
         if len(got) != len(deps):
-            problems.append("%d dependencies in, %d out" % (len(deps), len(got)))
+            problems.append("%d dependencies in, %d out (two of them are links of one path on two instances of a class whose parameter is per_instance=False: the same Parameter object, two watch points)" % (len(deps), len(got)))
             continue
         for d, g in zip(deps, got):
             if d.attrs["cls"] is foreign:
